@@ -38,6 +38,7 @@ structure Mon where
   stale : Bool := false            -- a cost changed / an audit reset happened: demand monitors stop
   auditFail : Bool := false
   lastGiveMe : Option Nat := none
+  lastAudit : Option Nat := none
   startOk : Nat := 0
   lastNeeds : Option Nat := none
   auditInFlight : Bool := false
@@ -151,6 +152,17 @@ def monitorHist (sc : HScn) (entries : List String) : List (String × String) :=
         match m.pauseAt with
         | some p => if t > p && t < p + sc.c.pause then m := m.add "C13" "audit-during-pause" |>.add "C19" "audit-during-pause"
         | none => pure ()
+        -- C19: an audit on every AuditInterval tick: on the tick grid since Start (a tick that fell into a pause is
+        -- answered at the resume), at most one per tick
+        match m.started with
+        | some s0 =>
+          let onGrid := t > s0 && (t - s0) % sc.c.auditInt == 0
+          let atResume := match m.pauseAt with | some p => t == p + sc.c.pause | none => false
+          if !onGrid && !atResume then m := m.add "C19" "audit-off-the-audit-interval-grid"
+        | none => m := m.add "C19" "audit-before-start"
+        if m.lastAudit == some t then m := m.add "C19" "two-audits-at-one-tick"
+        if m.shutdownAt.isSome then m := m.add "C19" "audit-after-shutdown"
+        m := { m with lastAudit := some t }
         if a2 == "audit-fail" then
           if healthy && !m.stale then
             let inflight := m.calls.any fun c => c.res.isNone
@@ -203,6 +215,18 @@ def monitorHist (sc : HScn) (entries : List String) : List (String × String) :=
       if m.expectPause && !m.stopAsked && m.shutdownAt.isNone then
         m := { m with expectPause := false }
         m := m.add "C13" "effective-pause-call-without-pause-event"
+      -- C19: the system is settled: the latest AuditInterval tick (or, if it fell into a pause, the resume after it) has been answered
+      match m.started with
+      | some s0 =>
+        if !m.stopAsked && m.shutdownAt.isNone && t ≥ s0 + sc.c.auditInt then
+          let g := s0 + ((t - s0) / sc.c.auditInt) * sc.c.auditInt
+          let due := match m.pauseAt with
+            | some p => if p ≤ g && g < p + sc.c.pause then p + sc.c.pause else g
+            | none => g
+          let answered := match m.lastAudit with | some a => decide (a ≥ g) | none => false
+          -- (while the loop sleeps in a pause - possibly a new one taken at the very instant of a resume - ticks wait)
+          if due ≤ t && !answered && !m.expectPause && !m.paused then m := m.add "C19" "audit-tick-without-audit"
+      | none => pure ()
       let infl : Int := ((f.getD 4 "").toInt?).getD 0
       if m.shutdownAt.isNone then
         -- C15: bounded
